@@ -1088,6 +1088,10 @@ func twccExtensionCall(p *Prog, call ssa.CallInstruction) bool {
 			}
 		}
 	}
+	// (c) the call sits in a helper that receives the id as a parameter: every caller passes the negotiated id
+	if _, isPar := p.origin(id).(*ssa.Parameter); isPar && twccIDValue(p, id, call.Parent(), isIDField, usesURI) {
+		return true
+	}
 	// (b) the id is the result of a repository helper that matches the URI and returns the extension's ID
 	okHelper := false
 	p.backwardReaches(id, func(v ssa.Value) bool {
@@ -1116,6 +1120,22 @@ func twccExtensionCall(p *Prog, call ssa.CallInstruction) bool {
 // twccIDValue: v (in function fn) is the negotiated transport-wide-CC extension id: read from RTPHeaderExtension.ID in
 // a function that matches the URI, or returned by a repository helper that does.
 func twccIDValue(p *Prog, v ssa.Value, fn *ssa.Function, isIDField func(ssa.Value) bool, usesURI func(*ssa.Function) bool) bool {
+	return twccIDValueD(p, v, fn, isIDField, usesURI, 0)
+}
+
+func twccIDValueD(p *Prog, v ssa.Value, fn *ssa.Function, isIDField func(ssa.Value) bool, usesURI func(*ssa.Function) bool, depth int) bool {
+	if par, isPar := p.origin(v).(*ssa.Parameter); isPar && depth < ipDepth {
+		args, sites, closed := p.argsForParam(par)
+		if !closed || len(args) == 0 {
+			return false
+		}
+		for i, a := range args {
+			if !twccIDValueD(p, a, sites[i].Parent(), isIDField, usesURI, depth+1) {
+				return false
+			}
+		}
+		return true
+	}
 	top := fn
 	for top.Parent() != nil {
 		top = top.Parent()
